@@ -16,6 +16,16 @@ def jobs(tier):
                            functions=["ncmpio_hash_%s" % opn, "ncmpio_Bernstein_hash"],
                            bounds="<=%d objects, names of 1..2 bytes (all byte values), hash_size %d" % (nid, hs),
                            assumptions=["realloc keeps the block in place (list capacity sufficient in the harness)"]))
+    out.append(Job(oid="C07.c.put_att.overwrite_rules", harness="C07/putatt.c",
+                   units=["src/drivers/ncmpio/ncmpio_attr.m4", "src/drivers/ncmpio/ncmpio_hash_func.c", "src/drivers/ncmpio/ncmpio_fill.c",
+                          "src/drivers/common/ncx.m4", "src/drivers/common/utils.c"],
+                   unwind=5, unwindset=["strlen.0:3", "strcmp.0:3", "memcpy.0:25"], object_bits=10, timeout=900,
+                   desc="ncmpio_put_att on a list holding attribute 'a' of any numeric type and 0..3 elements: in data mode an overwrite "
+                        "is accepted only when the encoded size does not grow, a new attribute needs define mode, a refused call changes "
+                        "nothing and writes nothing, an accepted data-mode change is written to the header before return",
+                   functions=["ncmpio_put_att", "ncmpio_NC_findattr", "x_len_NC_attrV", "incr_NC_attrarray", "ncmpio_new_NC_attr"],
+                   bounds="old/new type any of the format's numeric types, 0..3 elements, names 'a'/'c'",
+                   assumptions=["name normalisation cut to identity (ASCII names)", "ncmpio_write_header cut to a call recorder"]))
     return out
 
 
